@@ -55,6 +55,10 @@ pub enum Step {
     /// read_to_end* with the name of the most recent Start event
     #[serde(rename = "rte")]
     ReadToEnd,
+    /// read_to_end* called later than right after the Start event (after text, children, end tags), with the name of the
+    /// last Start event read
+    #[serde(rename = "rtea")]
+    ReadToEndAny,
     /// read_text (slice only; other sources use read_to_end_into and report the span)
     #[serde(rename = "rtext")]
     ReadText,
@@ -117,6 +121,8 @@ macro_rules! drive {
         let mut finished = false;
         for st in $steps {
             let st = match st {
+                Step::ReadToEndAny if last_start.is_empty() => &Step::Read,
+                Step::ReadToEndAny => &Step::ReadToEnd,
                 Step::ReadToEnd | Step::ReadText if !fresh_start => &Step::Read,
                 Step::Stream { .. } if finished => &Step::Read,
                 s => s,
@@ -189,6 +195,7 @@ macro_rules! drive {
                         Err(_) => StepObs { o: Obs { k: "Panic".into(), ..Default::default() }, s: None, c: None, did: "raw".into() },
                     }
                 }
+                Step::ReadToEndAny => unreachable!("converted above"),
                 Step::ReadToEnd | Step::ReadText => {
                     fresh_start = false;
                     let name = last_start.clone();
